@@ -365,6 +365,7 @@ def check_spec(repo, rel, res):
     ctx["leader_types"] = leader_types(pre)
     walk(ctx, m.ents[m.defs["Init"]].find("body")[0], {}, [], "Init", init=True)
     walk(ctx, m.ents[m.defs["Next"]].find("body")[0], {}, [], "Next", init=False)
+    stale_commit_counts(ctx)
     if ctx["assign"] < 15:
         res.fail("TLA-TYPE", spec + "/few-assignments", rel, "only %d assignments found under Next (the walk lost the actions)" % ctx["assign"])
     # ---- TLA-NEXT
@@ -900,12 +901,39 @@ def leader_types(ctx):
     if ctx.get("unknown_send"): return set()
     return {k for k in guarded - unguarded if not k.startswith("ChangeView")}
 
+def stale_commit_counts(ctx):
+    """A threshold (M- or F-based) over Commit messages of any view is sound only where a node that has committed
+    never changes its view: then all Commits of a node are of one view and the count is a count of nodes. In a spec
+    without that lock (none declared, or declared and reported as not holding) a committed node moves on and leaves a
+    stale Commit behind, which such a count adds to fresh ones."""
+    res, spec = ctx["res"], ctx["spec"]
+    locked = "commitSent" in SPEC_LOCKS.get(spec, []) and not any("/view-lock:" in f["construct"] and f["construct"].startswith(spec + "/") for f in res.rules["TLA-GUARD"]["findings"])
+    for action, (where, text) in sorted(ctx.get("anyview", {}).items()):
+        if locked:
+            res.ok("TLA-GUARD", "%s %s: a threshold over Commit messages of any view, in a spec whose commit lock holds (a node's Commits are all of one view)" % (spec, action))
+        else:
+            res.fail("TLA-GUARD", spec + "/" + action + "/any-view-commit-count", where, "a threshold over Commit messages that is not restricted to the node's current view (%s) in a spec where a node that has committed can still change its view: a stale Commit of an earlier view is counted together with fresh ones" % text[:160])
+
 def guard_rules(ctx, rhs, env, guards, action, init, where):
     m, res, spec = ctx["m"], ctx["res"], ctx["spec"]
     gs = expand_guards(ctx, guards, env)
     gtxt = [(flat(m, g), pol) for g, pol in gs]
     faulty = any(t.endswith('"type"),"bad")') and t.startswith("=(") and pol for t, pol in gtxt)
     allg = " && ".join(("" if pol else "NOT ") + t for t, pol in [(flat(m, g), p) for g, p in guards])
+    if not init and not faulty:
+        # thresholds over Commit messages of ANY view (see stale_commit_counts)
+        try:
+            for cl in dnf(("and", [nnf(m, g, pol, ctx.get("psub")) for g, pol in guards])):
+                for a in cl:
+                    if a[0] != "atom" or a[1] is None: continue
+                    side = a[2] if a[2].startswith("Cardinality(") else a[3] if a[3].startswith("Cardinality(") else None
+                    thr = a[3] if side is a[2] else a[2]
+                    if side is None or '"Commit"' not in side or '"view")' in side: continue
+                    af = affine_text(thr)
+                    if af is None or (af[1] == 0 and af[2] == 0): continue      # compared with a number: "has / has not sent", not a quorum
+                    ctx.setdefault("anyview", {}).setdefault(action, (where, a[4]))
+        except Undecided:
+            pass
     for idx, lits, what in type_literals(ctx, rhs, env):
         if what == "type":
             for lit, setname in (("bad", "RMFault"), ("dead", "RMDead")):
